@@ -485,7 +485,8 @@ def scope_memory(prog, rep, methods=None, rule="SCOPE"):
                     rep.ok(rule, fi.short, cons, "iteration over bucket ids in a listing method", fi.loc(n))
                 else:
                     rep.violation(rule, fi.short, f"{norm(p)[:60]}", "per-bucket container used as a whole (not through the bucket parameter): can reach other buckets' state", fi.loc(n))
-    rep.floor("memory container uses", n_sites, 15)
+    if methods is None:
+        rep.floor("memory container uses", n_sites, 15)
     return n_sites
 
 
@@ -591,3 +592,167 @@ def ddl_facts(prog, rep, rule="SCHEMA"):
         else:
             ok = v is not None and t.startswith("AutoField(")
         rep.check(ok, rule, mname, f"{mname}.{fld}", t, f"{mname}.{fld} = {t}", f"{ci.mod.relpath}:{getattr(v, 'lineno', ci.node.lineno)}")
+
+
+# ---------------------------------------------------------------------------
+# ADDR — delete / replace / get_event address exactly (event id AND bucket)
+
+
+def addr_rule(prog, rep, rule="ADDR"):
+    rep.rule(rule, "delete, replace and get_event address their target by the event id parameter (and, by SCOPE, the bucket): sqlite `id = ?event_id`, peewee `.where(EventModel.id == event_id)`, memory `event.id == event_id`")
+    sites = sql_sites(prog)
+    for m in ("delete", "replace", "get_event"):
+        ss = [s for s in sites if s.fi.short == f"SqliteStorage.{m}" and s.stmt.table == "events"]
+        fn = f"SqliteStorage.{m}"
+        if len(ss) != 1:
+            rep.undecided(rule, fn, "statement", f"{len(ss)} statements on events")
+        else:
+            s = ss[0]
+            ok = False
+            for c in s.stmt.where:
+                col, par = (c.left, c.right) if c.left.kind == "col" else (c.right, c.left)
+                if col.kind == "col" and col.name == "id" and c.op in ("=", "==") and par.kind == "param":
+                    o = s.binding_origin(par.index)
+                    ok = o is not None and o.kind == "param" and o.name == "event_id"
+            rep.check(ok and not s.stmt.has_or, rule, fn, f"{s.stmt.kind.upper()} events", "WHERE id = ?event_id", "the statement is not restricted to the event id it was given: it touches other events of the bucket", s.loc(), found=s.stmt.text())
+    # peewee: helper _get_event (used by replace / get_event) and delete
+    pcls = prog.cls("PeeweeStorage")
+    chains = peewee_chains(prog)
+    for m in ("_get_event", "delete"):
+        chs = [c for c in chains if c.fi.short == f"PeeweeStorage.{m}" and c.model == "EventModel"]
+        fn = f"PeeweeStorage.{m}"
+        if len(chs) != 1:
+            rep.undecided(rule, fn, "chain", f"{len(chs)} chains")
+            continue
+        c = chs[0]
+        ok = any(norm(w) in ("EventModel.id == event_id", "event_id == EventModel.id") for w in c.wheres) and is_param_ref(ast.Name(id="event_id"), c.fi, "event_id")
+        rep.check(ok, rule, fn, f"EventModel.{c.op}", "where(EventModel.id == event_id)", "the chain is not restricted to the event id it was given", c.loc(), found=c.text())
+    for m in ("replace", "get_event"):
+        fi = pcls.methods[m]
+        cs = [c for c in walk_own(fi.node) if isinstance(c, ast.Call) and norm(c.func) == "self._get_event"]
+        ok = len(cs) == 1 and len(cs[0].args) == 2 and is_param_ref(cs[0].args[1], fi, "event_id")
+        rep.check(ok, rule, fi.short, "self._get_event(bucket, event_id)", "looks up the id it was given", "does not look up the event id it was given", fi.loc())
+    # memory
+    mcls = prog.cls("MemoryStorage")
+    for m in ("delete", "replace", "_get_event"):
+        fi = mcls.methods[m]
+        conds = []
+        for n in walk_with_nested_exprs(fi.node):
+            if isinstance(n, ast.comprehension):
+                conds += [norm(c) for c in n.ifs]
+        ok = any(c in ("event.id == event_id", "event_id == event.id", "e.id == event_id") for c in conds)
+        rep.check(ok, rule, fi.short, "selection", f"filtered by {conds}", f"target not selected by `event.id == event_id` (conditions: {conds})", fi.loc())
+    fi = mcls.methods["get_event"]
+    cs = [c for c in walk_own(fi.node) if isinstance(c, ast.Call) and norm(c.func) == "self._get_event"]
+    ok = len(cs) == 1 and len(cs[0].args) == 2 and is_param_ref(cs[0].args[1], fi, "event_id")
+    rep.check(ok, rule, fi.short, "self._get_event(bucket, event_id)", "looks up the id it was given", "does not look up the event id it was given", fi.loc())
+
+
+# ---------------------------------------------------------------------------
+# UPSERT — insert_many partitions
+
+
+def _id_partition(cond, var):
+    """`var.id is not None` -> 'has', `var.id is None` -> 'none'"""
+    if isinstance(cond, ast.Compare) and len(cond.ops) == 1 and norm(cond.left) == f"{var}.id" and isinstance(cond.comparators[0], ast.Constant) and cond.comparators[0].value is None:
+        if isinstance(cond.ops[0], ast.IsNot):
+            return "has"
+        if isinstance(cond.ops[0], ast.Is):
+            return "none"
+    if isinstance(cond, ast.UnaryOp) and isinstance(cond.op, ast.Not):
+        r = _id_partition(cond.operand, var)
+        return {"has": "none", "none": "has"}.get(r)
+    return None
+
+
+def upsert_rule(prog, rep, rule="UPSERT"):
+    rep.rule(rule, "insert_many splits its argument into two complementary partitions (id is not None / id is None) over the same list; the id-bearing part reaches an update-by-id within the bucket, the id-less part an INSERT that does not name the id column; the inherited loop visits every element once")
+    for cname in ("SqliteStorage", "PeeweeStorage"):
+        fi = prog.func(f"{cname}.insert_many")
+        parts = {}
+        for n in walk_with_nested_exprs(fi.node):
+            if isinstance(n, (ast.ListComp, ast.GeneratorExp)) and len(n.generators) == 1:
+                g = n.generators[0]
+                if is_param_ref(g.iter, fi, "events") and isinstance(g.target, ast.Name) and len(g.ifs) == 1:
+                    k = _id_partition(g.ifs[0], g.target.id)
+                    if k is None:
+                        rep.undecided(rule, fi.short, f"partition `{norm(g.ifs[0])}`", "filter over events is not an id test", fi.loc(n))
+                    else:
+                        parts.setdefault(k, []).append(n)
+                elif is_param_ref(g.iter, fi, "events") and g.ifs:
+                    rep.undecided(rule, fi.short, f"partition `{[norm(c) for c in g.ifs]}`", "compound filter over events", fi.loc(n))
+        ok = set(parts) == {"has", "none"} and all(len(v) == 1 for v in parts.values())
+        rep.check(ok, rule, fi.short, "partitions", "events split into `id is not None` and `id is None`", f"the two partitions of `events` are not complementary (found {sorted(parts)}): events are dropped or written twice", fi.loc())
+        if not ok:
+            continue
+        # id-bearing part -> loop calling replace / insert_one with (bucket, e.id?, e)
+        has = parts["has"][0]
+        asg = parent(has)
+        var = asg.targets[0].id if isinstance(asg, ast.Assign) and isinstance(asg.targets[0], ast.Name) else None
+        loops = [l for l in walk_own(fi.node) if isinstance(l, ast.For) and ((var and norm(l.iter) == var) or l.iter is has)]
+        good = False
+        for l in loops:
+            if isinstance(l.target, ast.Name) and len(l.body) == 1 and isinstance(l.body[0], ast.Expr) and isinstance(l.body[0].value, ast.Call):
+                c = l.body[0].value
+                v = l.target.id
+                if norm(c.func) == "self.replace" and len(c.args) == 3 and norm(c.args[1]) == f"{v}.id" and norm(c.args[2]) == v:
+                    good = True
+                if norm(c.func) == "self.insert_one" and len(c.args) == 2 and norm(c.args[1]) == v:
+                    good = True
+        rep.check(good, rule, fi.short, "id-bearing partition", "each element goes to an update by its own id", "the id-bearing events are not each passed to replace(bucket, e.id, e) / insert_one(bucket, e)", fi.loc(has))
+    # the id-less part must not name id
+    s = [x for x in sql_sites(prog) if x.fi.short == "SqliteStorage.insert_many" and x.stmt.kind == "insert"]
+    if len(s) == 1:
+        rep.check("id" not in s[0].stmt.columns, rule, "SqliteStorage.insert_many", "INSERT columns", f"{s[0].stmt.columns}", "bulk INSERT names the id column", s[0].loc())
+        # rows built from the id-less partition only
+        fi = s[0].fi
+        nonepart = None
+        for n in walk_own(fi.node):
+            if isinstance(n, ast.Assign) and isinstance(n.value, ast.ListComp) and len(n.value.generators) == 1 and n.value.generators[0].ifs and _id_partition(n.value.generators[0].ifs[0], n.value.generators[0].target.id if isinstance(n.value.generators[0].target, ast.Name) else "") == "none":
+                nonepart = n.targets[0].id if isinstance(n.targets[0], ast.Name) else None
+        loops = [l for l in walk_own(fi.node) if isinstance(l, ast.For) and nonepart and norm(l.iter) == nonepart]
+        ok = len(loops) == 1 and any(isinstance(x, ast.Call) and norm(x.func) == f"{s[0].rows_var}.append" for x in ast.walk(loops[0])) and not any(isinstance(x, (ast.If, ast.Continue, ast.Break)) for x in ast.walk(loops[0]))
+        rep.check(ok, rule, fi.short, "id-less partition", "one row per id-less event", "rows for the bulk INSERT are not built one per element of the id-less partition", fi.loc())
+    else:
+        rep.undecided(rule, "SqliteStorage.insert_many", "INSERT", f"{len(s)} INSERT statements")
+    # inherited loop
+    fi = prog.func("AbstractStorage.insert_many")
+    loops = [l for l in walk_own(fi.node) if isinstance(l, ast.For)]
+    ok = len(loops) == 1 and is_param_ref(loops[0].iter, fi, "events") and len(loops[0].body) == 1 and isinstance(loops[0].body[0], ast.Expr) and norm(loops[0].body[0].value) == f"self.insert_one({bparam(fi)}, {norm(loops[0].target)})"
+    rep.check(ok, rule, fi.short, "loop", "every element is inserted once, in order", "the inherited insert_many does not pass every element to insert_one exactly once", fi.loc())
+    mfi = prog.func("MemoryStorage.insert_one")
+    # memory insert_one: id-bearing -> replace, else append
+    g = cfg_of(mfi)
+    reps = [c for c in walk_own(mfi.node) if isinstance(c, ast.Call) and norm(c.func) == "self.replace"]
+    apps = [c for c in walk_own(mfi.node) if isinstance(c, ast.Call) and isinstance(c.func, ast.Attribute) and c.func.attr == "append" and norm(c.func.value).startswith("self.db[")]
+    ok = len(reps) == 1 and len(apps) == 1 and _guarded_by_none(g, g.node_of(apps[0]), "event.id", mfi) and not _guarded_by_none(g, g.node_of(reps[0]), "event.id", mfi)
+    rep.check(ok, rule, mfi.short, "dispatch on id", "id-less events are appended, id-bearing ones replace", "MemoryStorage.insert_one does not dispatch on `event.id is None`", mfi.loc())
+
+
+def idalloc_memory(prog, rep, rule="IDALLOC"):
+    rep.rule(rule, "MemoryStorage allocates the id of a new event as max(id over the addressed bucket's live events) + k (k >= 1), 0-based for an empty bucket: unique within the bucket")
+    fi = prog.func("MemoryStorage.insert_one")
+    bp = bparam(fi)
+    asg = [n for n in walk_own(fi.node) if isinstance(n, ast.Assign) and any(norm(t) in ("event.id", "event['id']") for t in n.targets)]
+    found = False
+    for a in asg:
+        v = a.value
+        if isinstance(v, ast.BinOp) and isinstance(v.op, ast.Add):
+            for x, y in ((v.left, v.right), (v.right, v.left)):
+                if isinstance(y, ast.Constant) and isinstance(y.value, int) and y.value >= 1 and isinstance(x, ast.Call) and norm(x.func) == "max" and len(x.args) == 1 and isinstance(x.args[0], (ast.GeneratorExp, ast.ListComp)):
+                    g = x.args[0].generators[0]
+                    it_ok = norm(g.iter) == f"self.db[{bp}]" and not g.ifs
+                    elt = norm(x.args[0].elt)
+                    var = norm(g.target)
+                    elt_ok = elt in (f"int({var}.id or 0)", f"{var}.id", f"int({var}.id)", f"{var}.id or 0")
+                    found = True
+                    rep.check(it_ok and elt_ok, rule, fi.short, "new id", f"{norm(v)}", f"new id `{norm(v)}` is not max over the addressed bucket's ids + k: ids can collide with a live event", fi.loc(a))
+        elif isinstance(v, ast.Constant) and isinstance(v.value, int):
+            # empty-bucket branch: must be under `else` of `if self.db[bucket]:`
+            p = parent(a)
+            ok = isinstance(p, ast.If) and a in p.orelse and norm(p.test) in (f"self.db[{bp}]", f"len(self.db[{bp}]) > 0")
+            rep.check(ok, rule, fi.short, "first id", f"{v.value} for an empty bucket", "a constant id is assigned although the bucket may hold events", fi.loc(a))
+        else:
+            rep.undecided(rule, fi.short, f"id = {norm(v)[:50]}", "unrecognised id allocation", fi.loc(a))
+    if not found:
+        rep.violation(rule, fi.short, "new id", "no max(...)+k id allocation found for new events", fi.loc())
